@@ -13,6 +13,7 @@
  *                  lens     symbol lengths x alignments on a reduced configuration list (C07)
  * --replay "<case>" re-executes one case in a straight line.
  */
+#include <stddef.h>
 #include "vf.h"
 #include "ref.h"
 #include "lib_common/of_openfec_api.h"
@@ -566,12 +567,17 @@ static void digest_sparse (vf_h128 *h, of_mod2sparse *m)
 
 /* every word of the control block itself, pointers masked (any value >= 2^40 is taken for an address): a field the
  * named-field digest below does not know about - one added by a change to the library - still separates states */
-static void digest_raw (vf_h128 *h, const void *cb, size_t sz)
+static void digest_raw (vf_h128 *h, const void *cb, size_t sz, size_t skip_off, size_t skip_len)
 {
-	const unsigned char *b = cb;
+	/* skip_off/skip_len: a field whose value is derived from an address (the Reed-Solomon 'magic' is XORed with a
+	 * pointer) and therefore differs between executions without being state */
+	unsigned char tmp[1024];
 	size_t i;
-	for (i = 0; i + 8 <= sz; i += 8) { uint64_t v; memcpy (&v, b + i, 8); vf_h_u64 (h, v >= ((uint64_t) 1 << 40) ? 0x7074722121ULL : v); }
-	for (; i < sz; i++) vf_h_u64 (h, b[i]);
+	if (sz > sizeof tmp) sz = sizeof tmp;
+	memcpy (tmp, cb, sz);
+	if (skip_len && skip_off + skip_len <= sz) memset (tmp + skip_off, 0, skip_len);
+	for (i = 0; i + 8 <= sz; i += 8) { uint64_t v; memcpy (&v, tmp + i, 8); vf_h_u64 (h, v >= ((uint64_t) 1 << 40) ? 0x7074722121ULL : v); }
+	for (; i < sz; i++) vf_h_u64 (h, tmp[i]);
 }
 
 static vf_h128 digest (world_t *w)
@@ -588,7 +594,7 @@ static vf_h128 digest (world_t *w)
 	/* library */
 	if (G.codec == 3) {
 		of_ldpc_staircase_cb_t *cb = (of_ldpc_staircase_cb_t *) w->ses;
-		digest_raw (&h, cb, sizeof *cb);
+		digest_raw (&h, cb, sizeof *cb, 0, 0);
 		digest_sparse (&h, cb->pchk_matrix);
 		vf_h_u64 (&h, cb->nb_source_symbol_ready); vf_h_u64 (&h, cb->nb_repair_symbol_ready); vf_h_u64 (&h, cb->first_non_decoded);
 		vf_h_u64 (&h, (uint64_t) (cb->index_rows != NULL) * 2 + (uint64_t) (cb->index_cols != NULL)); vf_h_u64 (&h, (uint64_t) (cb->pchk_matrix_simplified != NULL));
@@ -609,7 +615,7 @@ static vf_h128 digest (world_t *w)
 			}
 	} else if (G.codec == 5) {
 		of_2d_parity_cb_t *cb = (of_2d_parity_cb_t *) w->ses;
-		digest_raw (&h, cb, sizeof *cb);
+		digest_raw (&h, cb, sizeof *cb, 0, 0);
 		digest_sparse (&h, cb->pchk_matrix);
 		vf_h_u64 (&h, cb->nb_source_symbol_ready); vf_h_u64 (&h, cb->nb_repair_symbol_ready); vf_h_u64 (&h, cb->first_non_decoded);
 		vf_h_u64 (&h, (uint64_t) (cb->index_rows != NULL) * 2 + (uint64_t) (cb->index_cols != NULL)); vf_h_u64 (&h, (uint64_t) (cb->pchk_matrix_simplified != NULL));
@@ -622,7 +628,7 @@ static vf_h128 digest (world_t *w)
 			for (i = 0; i < G.n; i++) { void *p = cb->encoding_symbols_tab[i]; vf_h_u64 (&h, ptr_class (w, p, seen, &nseen)); if (p) vf_h_bytes (&h, p, (size_t) G.len); }
 	} else if (G.codec == 1) {
 		of_rs_cb_t *cb = (of_rs_cb_t *) w->ses;
-		digest_raw (&h, cb, sizeof *cb);
+		digest_raw (&h, cb, sizeof *cb, 0, 0);
 		vf_h_u64 (&h, cb->nb_available_symbols); vf_h_u64 (&h, cb->nb_available_source_symbols);
 		vf_h_u64 (&h, (uint64_t) cb->decoding_finished * 2 + (uint64_t) (cb->rs_cb != NULL));
 		if (cb->available_symbols_tab)
@@ -633,7 +639,7 @@ static vf_h128 digest (world_t *w)
 			}
 	} else {
 		of_rs_2_m_cb_t *cb = (of_rs_2_m_cb_t *) w->ses;
-		digest_raw (&h, cb, sizeof *cb);
+		digest_raw (&h, cb, sizeof *cb, offsetof (of_rs_2_m_cb_t, magic), sizeof cb->magic);
 		vf_h_u64 (&h, cb->nb_available_symbols); vf_h_u64 (&h, cb->nb_available_source_symbols);
 		vf_h_u64 (&h, (uint64_t) cb->decoding_finished * 4 + (uint64_t) (cb->enc_matrix != NULL) * 2 + (uint64_t) (cb->dec_matrix != NULL));
 		if (cb->available_symbols_tab)
